@@ -349,8 +349,8 @@ static int chan_end_in_use(int chan, int end)
 {
 	int i;
 	for (i = 0; i < PL->nobj; i++)
-		if (PL->obj[i].kind == K_FD && (RO[i].registered || RO[i].xi[7]) && PL->obj[i].p[0] == chan &&
-		    (PL->obj[i].p[1] == end || RO[chan].ctype >= 2))
+		if (PL->obj[i].kind == K_FD && (RO[i].registered || RO[i].xi[7]) && RO[i].xi[4] == chan &&
+		    (RO[i].xi[5] == end || RO[chan].ctype >= 2))
 			return 1;
 	for (i = 0; i < PL->nobj; i++)
 		if (PL->obj[i].kind == K_PUMP && RO[i].registered &&
@@ -482,7 +482,16 @@ static int op_reg(struct rthr *th, int id, const struct pop *op)
 	case K_FD: {
 		struct iv_fd *f;
 		int chan = (int)po->p[0], end = (int)po->p[1], fd, fl, i, ret, try = (int)op->a;
-		struct robj *c = &RO[chan];
+		struct robj *c;
+
+		/* "fix ->fd and try again": after a failed attempt on a descriptor that cannot be polled, the
+		 * application points the same structure at its fall-back descriptor (p[6] = channel + 1) */
+		if (RO[chan].ctype >= 3 && o->xi[6] && po->p[6] > 0 && po->p[6] <= PL->nobj &&
+		    PL->obj[po->p[6] - 1].kind == K_CHAN && RO[po->p[6] - 1].ctype < 3) {
+			chan = (int)po->p[6] - 1;
+			end = RO[chan].ctype >= 2 ? 0 : (int)(po->p[7] & 1);
+		}
+		c = &RO[chan];
 
 		if (RO[chan].ctype >= 3)
 			try = 1;	/* only the _try variant may be used on descriptors that cannot be polled */
@@ -523,6 +532,8 @@ static int op_reg(struct rthr *th, int id, const struct pop *op)
 		f->handler_in = fd_handler[0][o->hv[0]];
 		f->handler_out = fd_handler[1][o->hv[1]];
 		f->handler_err = fd_handler[2][o->hv[2]];
+		o->xi[4] = chan;
+		o->xi[5] = end;
 		if (try) {
 			th->api_try = 1;
 			o->xi[7] = 1;	/* the descriptor is spoken for while the call is in progress (it yields) */
@@ -531,7 +542,9 @@ static int op_reg(struct rthr *th, int id, const struct pop *op)
 			th->api_try = 0;
 			if (ret != 0) {
 				PROBE[PR_TRY_FAILED]++;
-				obj_free_mem(id);
+				o->xi[6] = 1;
+				if (!po->p[5])
+					obj_free_mem(id);	/* else: the structure is kept and reused as it is */
 				simk_log(101, OP_REG, -id - 1);
 				return 1;
 			}
@@ -540,6 +553,8 @@ static int op_reg(struct rthr *th, int id, const struct pop *op)
 		}
 		o->registered = 1;
 		o->fdnum = fd;
+		o->xi[4] = chan;
+		o->xi[5] = end;
 		o->snap_round = -1;
 		for (i = 0; i < 3; i++) {
 			o->last_cb_round[i] = -1;
@@ -1139,8 +1154,10 @@ static void obs_wait_block(int tid)
 			viol("C06.sleep_with_task", "thread %d blocks in the kernel while task obj %d is registered and has not run", t, i);
 			break;
 		case K_TIMER:
-			if (th->have_clock && o->expiry <= th->last_clock)
+			if (th->have_clock && o->expiry <= th->last_clock) {
 				viol("C07.block_with_due", "thread %d blocks in the kernel although timer obj %d (expiry %" PRId64 ") is due by the loop's own clock %" PRId64, t, i, o->expiry, th->last_clock);
+				viol("C04.oversleep", "thread %d goes to sleep in the kernel with timer obj %d already due (expiry %" PRId64 ", loop clock %" PRId64 ", time-out %" PRId64 " ns)", t, i, o->expiry, th->last_clock, th->wait_tmo);
+			}
 			break;
 		case K_EVENT:
 			/* A completed post may legitimately still be undelivered when the owner blocks: a
